@@ -18,7 +18,7 @@ type Handler interface {
 	Await(point string, obj interface{}, ready func() bool)
 	// BeforeBlock is called before a real blocking select; the returned
 	// handle is passed to AfterBlock once the select has fired.
-	BeforeBlock(point string, obj interface{}) interface{}
+	BeforeBlock(ctx context.Context, point string, obj interface{}) interface{}
 	AfterBlock(handle interface{}, which string)
 	// Spawn is called by the parent before "go"; the returned handle is
 	// passed to TaskStart/TaskEnd by the new goroutine.
@@ -51,9 +51,9 @@ func Await(point string, obj interface{}, ready func() bool) {
 	}
 }
 
-func BeforeBlock(point string, obj interface{}) interface{} {
+func BeforeBlock(ctx context.Context, point string, obj interface{}) interface{} {
 	if h := handler; h != nil {
-		return h.BeforeBlock(point, obj)
+		return h.BeforeBlock(ctx, point, obj)
 	}
 	return nil
 }
